@@ -72,6 +72,28 @@ Check C16_source_emission_reads_back :
 Print Assumptions C16_source_emission_reads_back.
 Print Assumptions closed_marker.
 
+(* ------------------------------------------------------------------ function-source emission -> parser
+   serializable_value_to_source (captured values inlined into `__blots_function` text; since fix
+   b235c37 a number with the sign bit set is wrapped in parentheses, NaN is (0/0)): the parenthesised
+   text is a nested_expression, read back to the identical double, -0 included *)
+Theorem C16_function_emission_reads_back :
+  forall (fmt_prec0 display : num -> string) (str_parse : string -> option num) (x : num),
+    valid_binary 53 1024 x = true -> is_finite x = true ->
+    parse_contract str_parse ->
+    (nfract_is_zero x && nltb (nabs x) c1e15 = true -> prec0_contract (fmt_prec0 x) x) ->
+    (nfract_is_zero x && nltb (nabs x) c1e15 = false -> display_contract (display x) x) ->
+    read_source str_parse (emit_num fmt_prec0 display x) = Ok x.
+Proof. exact emission_reads_back. Qed.
+Check C16_function_emission_reads_back :
+  forall (fmt_prec0 display : num -> string) (str_parse : string -> option num) (x : num),
+    valid_binary 53 1024 x = true -> is_finite x = true ->
+    parse_contract str_parse ->
+    (nfract_is_zero x && nltb (nabs x) c1e15 = true -> prec0_contract (fmt_prec0 x) x) ->
+    (nfract_is_zero x && nltb (nabs x) c1e15 = false -> display_contract (display x) x) ->
+    read_source str_parse (emit_num fmt_prec0 display x) = Ok x.
+Print Assumptions C16_function_emission_reads_back.
+Print Assumptions closed_marker.
+
 (* ------------------------------------------------------------------ formatter -> parser *)
 Theorem C16_formatter_reads_back :
   forall (fmt_prec0 display : num -> string) (str_parse : string -> option num) (x : num) (w : option Z),
@@ -347,6 +369,13 @@ Proof.
     try reflexivity; try (left; reflexivity); try (split; [reflexivity | discriminate]); try discriminate.
   left; discriminate.
 Qed.
+Example emission_path_computes :
+  map (fun b => (emit_num ref_prec0 ref_display (nb b),
+                 read_source ref_str_parse (emit_num ref_prec0 ref_display (nb b))))
+      [0xc014000000000000; 0x8000000000000000; 0xbfb999999999999a; 0x3fe0000000000000]
+  = [("(-5)", Ok (nb 0xc014000000000000)); ("(-0)", Ok (nb 0x8000000000000000));
+     ("(-0.1)", Ok (nb 0xbfb999999999999a)); ("0.5", Ok (nb 0x3fe0000000000000))].
+Proof. vm_compute. reflexivity. Qed.
 Example literal_examples :
   map (show_presult ref_str_parse) ["0xFF"; "0b1010"; "1_000_000"; "3.14e-2"; ".5"; "-.5e1"; "1e23"; "0x7fff_ffff_ffff_ffff"]
   = ["406fe00000000000"; "4024000000000000"; "412e848000000000"; "3fa013a92a305532";
